@@ -57,6 +57,12 @@ CLAIMED = {
          "symbolic inside a 2^6 (quick) / 2^8 (thorough) window placed at 0, around 2^32, around 2^63 and just below 2^64-1; K<=2-3 quick, 3-4 thorough.",
          "libstdc++'s vector reallocation path is trapped (proved unreachable after reserve) for add/remove/query; Zwerg-level words of builtin-aset.cc "
          "and the textual rendering are outside this check.", '6/C16'),
+ 'C17': ("Kernel only: for every location-expression opcode 0..255 (scenario digit) and fully symbolic 64-bit operand words, dwop_number / "
+         "dwop_number2 (locexpr_op_values, atval.cc) yield exactly the operands of the opcode's class -- none / one unsigned / one signed / one "
+         "hexadecimal address / two unsigned / unsigned+signed -- with the stored word read with the right signedness, each yielded once; the "
+         "class table is written from the DWARF 5 standard independently of atval.cc.",
+         "NOT covered: location lists and their element numbering, length/elem/relem, ?OP_x, address, abbreviations (all need the libdw contract "
+         "model), opcodes whose operands libdw resolves (implicit_value, implicit_pointer, entry_value, const_type).", '0.3'),
  'C20': ("Kernel only (clause: named constants have the value/name the headers define): for each of 17 constant families (DW_TAG, DW_AT, DW_FORM, "
          "DW_LANG, DW_INL, DW_ATE, DW_ACCESS, DW_VIS, DW_VIRTUALITY, DW_ID, DW_CC, DW_ORD, DW_DSC, DW_DS, DW_OP, DW_END, DW_DEFAULTED) the "
          "stringer of dwcst.cc (its tables regenerated through known-dwarf.awk at check time) returns, for EVERY int code, a name exactly when "
@@ -75,7 +81,6 @@ NA = {
  'C10': "op_tr_closure keeps a std::set<shared_ptr<stack>> ordered by value comparison: control depends on symbolic data, and CBMC's symbolic execution of merged C++ heap states did not terminate (DESIGN 2.5)",
  'C12': "needs two state buffers over one operator graph with a symbolic schedule, i.e. merged control over the C++ heap, which CBMC's symbolic execution does not get through (DESIGN 2.5)",
  'C15': "needs lexer/parser and execution of both sides; tree::simplify over vector<tree> not reached (DESIGN 7)",
- 'C17': "needs the libdw contract model (location lists, abbreviations); not reached (DESIGN 7)",
  'C18': "needs the libdwfl module/symbol model; the per-machine domain logic is covered under C09 only",
  'C19': "main() of the CLI is a 400-line monolith behind getopt/iostream/file I/O; the observables are the effects of those externals (DESIGN 7)",
 }
